@@ -188,6 +188,9 @@ mut("rco_condition_inherits_instead_of_branches", ["C04"], "calAndSetShortCircui
     [("compiler.go", "\t\tcase p.getNodeType() == cond && int16(i) > pIdx && n.value != \"fi\":", "\t\tcase p.getNodeType() == cond && int16(i) < pIdx && n.value != \"fi\":")], "the condition of an if inherits the enclosing and/or flag instead of the branches")
 mut("registered_operator_shadows_builtin", ["C02"], "parser.getOperator/post/builtin-first",
     [("parser.go", "\top, exist := builtinOperators[opName]\n\tif !exist {\n\t\top, exist = p.conf.OperatorMap[opName]\n\t}\n\treturn op, exist", "\top, exist := p.conf.OperatorMap[opName]\n\tif !exist {\n\t\top, exist = builtinOperators[opName]\n\t}\n\treturn op, exist")], "a registered operator with a built-in name shadows the built-in (constant folding still uses the built-in)")
+mut("event_wrapper_shares_one_params_buffer", ["C07"], "sweep/frame:eval/calAndSetEventNode.wrapOpEvent.$1",
+    [("compiler.go", "\t\t\tisFastOp = n.getNodeType() == fastOperator\n\t\t)", "\t\t\tisFastOp = n.getNodeType() == fastOperator\n\t\t\tshared   = make([]Value, 0, 8)\n\t\t)"),
+     ("compiler.go", "\t\t\teventParams := make([]Value, len(params))\n\t\t\tcopy(eventParams, params)", "\t\t\teventParams := shared[:0]\n\t\t\teventParams = append(eventParams, params...)")], "the OP_EXEC wrapper reuses one buffer allocated when the program was built")
 
 def main():
     out = os.path.join(os.path.dirname(os.path.abspath(__file__)), "mutants")
